@@ -55,7 +55,7 @@ func (*engine) ID() string { return "C08" }
 
 func (*engine) Plan(tier string) int64 {
 	if tier == "thorough" {
-		return 9000
+		return 6000
 	}
 	return 2800
 }
@@ -92,7 +92,7 @@ func (*engine) Describe() simkit.Description {
 			"(WKB incl. big-/mixed-endian, WKT, GeoJSON, TWKB with drawn precision/headers, GeoJSON Feature / FeatureCollection), stored on a simulated medium, faulted, and read by every real decoder of that format. " +
 			"Fault kinds: truncate, bit-flip, byte-substitute (all 256 values at structural offsets), 4-byte count smash (0,1,2^31-1,2^31,2^32-1,n-1,n+1), WKB type-word smash, varint smash (2^k, 2^64-1), " +
 			"lost/duplicated/misdirected sector (sector sizes 1,8,16,64,512), torn write over zeros/older record/garbage, trailing garbage, splice of two records, token-level drop/duplicate/swap/replace for text formats, " +
-			"deep nesting, seeded fault sequences of length 2-3, seeded arbitrary byte strings. In the thorough tier single faults are enumerated completely for records <= 512 bytes (exhaustive_records counts them) and sampled at 4096 positions per kind above that; the quick tier samples 32 positions per kind. " +
+			"deep nesting, seeded fault sequences of length 2-3, seeded arbitrary byte strings. In the thorough tier single faults are enumerated completely for records <= 512 bytes (exhaustive_records counts them) and sampled at 1024 positions per kind above that (structural bytes: 256 positions x 36 values); the quick tier samples 32 positions per kind. " +
 			"distinct_nontrivial counts distinct (format, fault kind, structural field class, decoder, outcome class) tuples, outcome class = normalised error text or returned geometry type; a fault that left the bytes unchanged is trivial and not counted.",
 		Assumptions: []string{
 			fmt.Sprintf("Allocation policy: one decoder call may allocate at most %d + %d*len(input) heap bytes (TotalAlloc delta, exact via ReadMemStats when the cheap runtime/metrics reading exceeds a quarter of the bound).", allocBase, allocPerByte),
@@ -650,7 +650,7 @@ func (e *engine) Run(src *vs.Source, tier string, idx int64) *simkit.RunResult {
 	exhaustive := tier == "thorough" && len(rec) <= 512
 	per := 32
 	if tier == "thorough" {
-		per = 4096
+		per = 1024 // positions per fault kind for records that are not enumerated completely
 	}
 	if exhaustive {
 		res.Stats["exhaustive_records"]++
